@@ -46,7 +46,7 @@ fn main() {
     }
   }
   match args[1].as_str() {
-    "check" => {
+"check" | "survey" => {
       if args.len() < 3 {
         usage();
       }
@@ -78,7 +78,8 @@ fn main() {
         }
         i += 1;
       }
-      let opts = Opts { property: args[2].clone(), tier, seed, jobs, verif_dir, scale, write_evidence: true };
+      let survey = args[1] == "survey";
+      let opts = Opts { property: args[2].clone(), tier, seed, jobs, verif_dir, scale, write_evidence: !survey, survey };
       let spec = match registry::check_spec(&args[2]) {
         Some(s) => s,
         None => {
